@@ -801,6 +801,102 @@ def run_C16(ctx):
     ctx.correspond("build", bc)
 
 
+
+# ------------------------------------------------------------------------------------------ C12 / C18 (svg stream)
+def rgba_hex(rng, alpha=None):
+    a = alpha if alpha is not None else rng.choice([255, 255, 255, 0, 128, rng.randrange(256)])
+    return "%02x%02x%02x%02x" % (rng.randrange(256), rng.randrange(256), rng.randrange(256), a)
+
+
+IMAGE_STRINGS = ["https://example.com/logo.png", "data:image/png;base64,iVBORw0KGgo=", "./assets/a b.svg",
+                 "https://x.y/?a=1&b=\"2\"<>", "it's <&> \"q\"", "&amp;", "/tmp/\u00e9\u20ac\U0001F680.png", "a\tb\nc\rd", "]]>", "&#38;", ""]
+
+
+def symbol_matrices(ctx, versions):
+    """real symbols from the implementation: version -> (size, hexmatrix)"""
+    cases = [build_case(None, 1, v, None, payload(ctx.rng, 2, 3 + v % 5, "ascii")) for v in versions]
+    outs = ctx.run_impl("symbols", cases)
+    res = {}
+    for v, o in zip(versions, outs):
+        b = parse_build_out(o)
+        if b:
+            res[v] = (b["n"], b["hex"])
+    return res
+
+
+def gen_svg_cases(ctx, count, versions, with_image=True):
+    rng = ctx.rng
+    mats = symbol_matrices(ctx, versions)
+    cases = []
+    dist = ctx.distribution.setdefault("svg", {"layers": {}, "image": 0, "special_image": 0, "alpha": 0, "versions": len(mats)})
+    vs = sorted(mats)
+    for i in range(count):
+        v = vs[i % len(vs)]
+        n, hx = mats[v]
+        opts = []
+        if rng.random() < 0.8:
+            opts.append("margin=%d" % rng.choice([0, 1, 2, 4, 7, 16]))
+        if rng.random() < 0.5:
+            opts.append("bg=" + rgba_hex(rng))
+        if rng.random() < 0.5:
+            opts.append("fg=" + rgba_hex(rng))
+        nl = rng.choice([0, 1, 1, 2, 3])
+        for _ in range(nl):
+            if rng.random() < 0.5:
+                opts.append("shape=%d" % rng.randrange(6))
+            else:
+                opts.append("shapec=%d:%s" % (rng.randrange(6), rgba_hex(rng)))
+        dist["layers"][str(nl)] = dist["layers"].get(str(nl), 0) + 1
+        if with_image and rng.random() < 0.5:
+            img = rng.choice(IMAGE_STRINGS)
+            if img:
+                opts.append("image=" + hexs(img))
+                dist["image"] += 1
+                if any(ch in img for ch in "&<>\"'"):
+                    dist["special_image"] += 1
+            if rng.random() < 0.5:
+                opts.append("ishape=%d" % rng.randrange(3))
+            if rng.random() < 0.4:
+                opts.append("ibg=" + rgba_hex(rng))
+            if rng.random() < 0.3:
+                opts.append("isize=%s" % rng.choice(["5", "7.5", "9.25", "3", "11"]))
+            if rng.random() < 0.3:
+                opts.append("igap=%s" % rng.choice(["0", "1", "0.5", "2.25", "1.75"]))
+            if rng.random() < 0.3:
+                opts.append("ipos=%s,%s" % (rng.choice(["10", "12.5", "8.25"]), rng.choice(["10", "11.5", "14.75"])))
+        cases.append("svg %d %s %s" % (n, hx, " ".join(opts)))
+    return cases
+
+
+def run_C12(ctx):
+    versions = [0, 1, 2, 6, 13, 24, 39] if ctx.quick else list(range(40))
+    cases = gen_svg_cases(ctx, 120 if ctx.quick else 2500, versions)
+    # all six shapes on every sampled version, plain
+    mats = symbol_matrices(ctx, versions)
+    for v, (n, hx) in mats.items():
+        for sh in range(6):
+            cases.append("svg %d %s shape=%d margin=%d" % (n, hx, sh, v % 5))
+    impl, _ = ctx.correspond("svg", cases)
+    no_panic(ctx, "svg", cases, impl)
+    # purity of rendering (second call equal, matrix unchanged) is the last field
+    ctx.count_oracle("render_pure", len(impl))
+    for c, o in zip(cases, impl):
+        if o.startswith("OK ") and not o.endswith(" 1"):
+            ctx.direct_failure("render_pure", {"case": c[:300]}, "second to_str differs or matrix modified")
+    # spec oracle: the XML subset parser on the implementation's string equals the expected document
+    tr = []
+    for c, o in zip(cases, impl):
+        p = c.split()
+        q = o.split()
+        if len(q) == 3 and q[0] == "OK":
+            tr.append(("oxml %s %s %s %s" % (p[1], p[2], q[1], " ".join(p[3:])), lambda got: got == "1", {"case": c[:3000]}))
+    probe = run_exe(FQM, ["oxmlparse 3c612f3e"], "probe")
+    if probe and probe[0].startswith("MODEL-UNSUPPORTED"):
+        ctx.notes.append("spec XML oracle stream not available in this driver build; skipped")
+    else:
+        ctx.oracle("xml_expected_doc", tr)
+
+
 REGISTRY = {
     "C01": {"run": run_C01, "corpus": corpus_builds(["decode"]), "tables": ["all"],
             "rule": "builds over (mode, level, version) cells at capacity / lower threshold / random lengths, forced and automatic options; non-trivial = distinct case line"},
@@ -824,6 +920,8 @@ REGISTRY = {
             "rule": "debug build (overflow checks + debug assertions): builds at boundary lengths, all-zero / 0xFF / pad look-alike payloads, lengths up to 8000; negative controls must panic"},
     "C11": {"run": run_C11, "tables": ["percent_score"],
             "rule": "selection traces through the hook recorder; documented penalty of every candidate; raw line / matrix scanners"},
+    "C12": {"run": run_C12, "tables": [],
+            "rule": "SvgBuilder::to_str on real symbols: margins, 0..3 shape layers over the 6 shapes with and without colours, alpha, images incl. XML-special and non-ASCII strings, background shapes, overrides (multiples of 0.25)"},
     "C15": {"run": run_C15, "corpus": corpus_builds(["labels"]), "tables": ["alignment", "version_size"],
             "rule": "all 40 blank symbols + builds; every label compared with the ISO region map"},
     "C16": {"run": run_C16, "tables": [],
